@@ -21,10 +21,11 @@ def build():
     U.feature('allocator_api', 'sized_hierarchy')
     U.add(prelude.GET_MUT)
     U.opaque('PublisherHandle', 'Clone, PartialEq, Eq, Hash')
-    U.opaque('RrdpFileRandom', 'Clone')
+    U.opaque('RrdpFileRandom', 'Clone, Default')
+    U.add('pub assume_specification [<RrdpFileRandom as Default>::default] () -> (r: RrdpFileRandom);')
     for st in ['PublishElement', 'UpdateElement', 'WithdrawElement', 'DeltaElements']:
         U.struct(RR, st, derive=[])
-    U.struct(RR, 'CurrentObjects', derive=[], default_ensures=[('empty', 'r.0@ == Map::<CurrentObjectUri, Base64>::empty()')])
+    U.struct(RR, 'CurrentObjects', derive=['Clone'], default_ensures=[('empty', 'r.0@ == Map::<CurrentObjectUri, Base64>::empty()')])
     U.struct(RR, 'SnapshotData', derive=[])
     U.add(SPEC)
     U.add(SPEC2)
@@ -44,6 +45,9 @@ def build():
                  ('content_is_delta_applied', 'pview(*final(self), *publisher) == apply_delta_spec(pview(*old(self), *publisher), delta)'),
                  ('others_untouched', 'forall |q: PublisherHandle| q != *publisher ==> pview(*final(self), q) == pview(*old(self), q)'),
              ]),
+        U.fn(RR, 'SnapshotData', 'new', ensures=[('fields', 'r.random == random && r.publishers_current_objects == publishers_current_objects')]),
+        U.fn(RR, 'SnapshotData', 'clone_with_new_random', requires=[('km', km)], ensures=[
+            ('same_content_for_every_publisher', 'forall |p: PublisherHandle| pview(r, p) == pview(*self, p)')]),
         U.fn(RR, 'SnapshotData', 'get_publisher_objects', requires=[('km', km)], ensures=[
             ('lookup', 'match r { Some(c) => self.publishers_current_objects@.contains_key(*publisher) && *c == self.publishers_current_objects@[*publisher], None => !self.publishers_current_objects@.contains_key(*publisher) }')]),
     ])
